@@ -1,0 +1,28 @@
+//go:build verif
+
+package ssh
+
+// Contracts for the ssh simulator's authentication callbacks (property C12), checked by /verif/govc.
+// Comment-only file: it adds nothing to any build.
+//
+// A credential entry admits (user, password) when it is the wildcard "*" or splits at ':' into
+// exactly user and password (splitcount/splitpart are the uninterpreted results of strings.Split).
+//@ spec credMatch(c string, u string, p string) bool = c == "*" || (splitcount(c, ":") == 2 && u == splitpart(c, ":", 0) && p == splitpart(c, ":", 1))
+//
+// Password callback: succeeds exactly for credentials in the configured set; one event, sent before
+// the decision; no state of the service is written (so earlier attempts cannot influence later ones).
+//@ func (*sshSimulatorService).Handle$2
+//@   check frame
+//@   ensures [decision] (result1 == nil) <==> (exists j int :: 0 <= j && j < len(s.Credentials) && credMatch(s.Credentials[j], cmuser(cm), str(password)))
+//@   ensures [one-event] s.c.sent == old(s.c.sent) + 1
+//@   ensures [no-permissions] result0 == nil
+//@   modifies ghost(sent)
+//@   loop 1: invariant forall j int :: 0 <= j && j <= rangeindex ==> !credMatch(s.Credentials[j], cmuser(cm), str(password))
+//@   loop 1: invariant s.c.sent == old(s.c.sent) + 1
+//
+// Public-key callback: always rejects, one event.
+//@ func (*sshSimulatorService).Handle$1
+//@   check frame
+//@   ensures result1 != nil && result0 == nil
+//@   ensures [one-event] s.c.sent == old(s.c.sent) + 1
+//@   modifies ghost(sent)
